@@ -157,7 +157,7 @@ type sliceVar struct {
 func sliceVarOf(addr ssa.Value) (sliceVar, bool) {
 	switch x := addr.(type) {
 	case *ssa.FieldAddr:
-		if al, ok := peelCell(x.X).(*ssa.Alloc); ok {
+		if al := localObjOf(x.X); al != nil {
 			return sliceVar{al, x.Field}, true
 		}
 	default:
@@ -166,6 +166,21 @@ func sliceVarOf(addr ssa.Value) (sliceVar, bool) {
 		}
 	}
 	return sliceVar{}, false
+}
+
+// localObjOf: the object created in this function that a struct address denotes: a local struct variable (possibly
+// captured by a closure), or the object a pointer variable assigned exactly once points to (`gb := &groupBy{…}`, whose
+// fields are reached through loads of gb — directly or, in a closure, through the captured cell).
+func localObjOf(v ssa.Value) *ssa.Alloc {
+	if al, ok := peelCell(v).(*ssa.Alloc); ok {
+		return al
+	}
+	if _, isLoad := v.(*ssa.UnOp); isLoad {
+		if al, ok := peel(v).(*ssa.Alloc); ok {
+			return al
+		}
+	}
+	return nil
 }
 
 func loadsOf(fn *ssa.Function, sv sliceVar) []ssa.Instruction {
@@ -181,7 +196,7 @@ func loadsOf(fn *ssa.Function, sv sliceVar) []ssa.Instruction {
 				return
 			}
 			if sv.field >= 0 {
-				if fa, ok := u.X.(*ssa.FieldAddr); ok && fa.Field == sv.field && peelCell(fa.X) == sv.alloc {
+				if fa, ok := u.X.(*ssa.FieldAddr); ok && fa.Field == sv.field && ssa.Value(localObjOf(fa.X)) == sv.alloc {
 					out = append(out, i)
 					return
 				}
@@ -275,6 +290,7 @@ type filledSlice struct {
 type sliceRead struct {
 	val ssa.Value
 	pos ssa.Instruction // the load, when the variable is a cell; nil for an SSA register, which is read where it is used
+	obj bool            // val is the address of the object that holds the slice: only handing the object on counts as a read
 }
 
 func (o *orderCtx) innermost(b *ssa.BasicBlock) *loopInfo {
@@ -400,6 +416,20 @@ func (o *orderCtx) cellReads(sv sliceVar, loop *loopInfo) []sliceRead {
 			continue
 		}
 		out = append(out, sliceRead{val: ld.(ssa.Value), pos: ld})
+	}
+	// the slice is a field of an object held by pointer (`gb := &groupBy{…}`): handing the pointer on (returning it,
+	// storing it, passing it to a call) lets the receiver read the slice as it is at that point
+	if al, ok := sv.alloc.(*ssa.Alloc); ok && sv.field >= 0 && al.Heap {
+		out = append(out, sliceRead{val: al, obj: true})
+		allInstrs(o.fn, func(i ssa.Instruction) {
+			u, ok := i.(*ssa.UnOp)
+			if !ok || u.Op != token.MUL || (loop != nil && loop.blocks[u.Block()]) {
+				return
+			}
+			if cell, isCell := peelCell(u.X).(*ssa.Alloc); isCell && cell != al && peel(u) == ssa.Value(al) {
+				out = append(out, sliceRead{val: u, pos: u, obj: true})
+			}
+		})
 	}
 	return out
 }
@@ -570,6 +600,21 @@ func (o *orderCtx) check(fs *filledSlice, sorted bool, defect string) {
 			if r.pos == nil && fs.loop != nil && u.Parent() == fn && fs.loop.blocks[u.Block()] {
 				continue // inside the filling loop
 			}
+			if r.obj {
+				// address computations, the object's own initialisation and captures (the less function is part of the
+				// sort) do not read the slice
+				switch x := u.(type) {
+				case *ssa.FieldAddr, *ssa.MakeClosure, *ssa.DebugRef, *ssa.UnOp:
+					continue
+				case *ssa.Store:
+					if x.Val != r.val {
+						continue
+					}
+					if cell, isCell := x.Addr.(*ssa.Alloc); isCell && !escapesCell(cell) {
+						continue // kept in a local pointer variable, whose loads are reads of their own
+					}
+				}
+			}
 			uu := u
 			if mi, ok := u.(*ssa.MakeInterface); ok {
 				for _, u2 := range usesOf(mi) {
@@ -678,6 +723,12 @@ func (o *orderCtx) check(fs *filledSlice, sorted bool, defect string) {
 		}
 	}
 	c.r.ok(rule, key, okmsg, site)
+}
+
+// escapesCell: the local variable's address is used for anything but loads and stores of the variable (captures included).
+func escapesCell(cell *ssa.Alloc) bool {
+	_, esc := cellStores(cell)
+	return esc
 }
 
 // inductionOf: idx is base+k for a phi at the header of a loop; step is the phi's change per iteration (0: not constant).
